@@ -25,19 +25,20 @@ var (
 )
 
 type solver struct {
-	spec    SolverSpec
-	cmd     *exec.Cmd
-	in      io.WriteCloser
-	out     *bufio.Reader
-	log     *strings.Builder // per-path transcript (for counterexample dumps), may be nil
-	queries int64
-	nanos   int64
-	errs    int64
-	timeout int // ms per query
-	nameSeq int64
-	scope   []string // assertions made inside the innermost open (push 1) of a check
-	depth   int      // number of open (push 1) scopes
-	hung    bool     // the watchdog killed the process because it ignored its own time limit
+	spec              SolverSpec
+	cmd               *exec.Cmd
+	in                io.WriteCloser
+	out               *bufio.Reader
+	log               *strings.Builder // per-path transcript (for counterexample dumps), may be nil
+	queries           int64
+	nanos             int64
+	errs              int64
+	timeout           int // ms per query
+	nameSeq           int64
+	scope             []string // assertions made inside the innermost open (push 1) of a check
+	depth             int      // number of open (push 1) scopes
+	hungJustRestarted bool     // the session was just restarted by the watchdog path (no second restart needed)
+	hung              bool     // the watchdog killed the process because it ignored its own time limit
 }
 
 func newSolver(spec SolverSpec, timeoutMs int) (*solver, error) {
